@@ -259,6 +259,13 @@ class Emission:
                     w.net.inject(src, fl.dst, fl.data, note="resent")
                     return []
                 w.net.on_send = hook
+            if c["first_src"] == "other_ip_after_ping":
+                # the circuit's keep-alive ping reaches the exit before any data does - also delivered from the other address
+                origin.overlay.do_ping()
+                await asyncio.sleep(0.2)
+                state["redirected"] = 0
+                if loop.transports:
+                    self.fail("P4", "enable:ping", "an outside socket was opened by a ping, before any data arrived")
             opener = make_payload("dht", 12, prefix, 1) if c["direction"] == "in" else payload
             origin.overlay.send_data(circuit.hop.address, circuit.circuit_id, dest if c["direction"] == "out"
                                      else UDPv4Address("5.5.5.5", 5555), ("0.0.0.0", 0), opener)
@@ -272,7 +279,7 @@ class Emission:
                                                            f"under exit flags {sorted(fs)}")
                 if a[0] in ("0.0.0.0", "::") and a[1] == 0:
                     self.fail("P3", "sendto", "a datagram was emitted towards the null address")
-            foreign_first = c["first_src"] in ("other_ip", "other_ip_after_replay")
+            foreign_first = c["first_src"] in ("other_ip", "other_ip_after_replay", "other_ip_after_ping")
             if foreign_first:
                 if loop.transports:
                     self.fail("P4", "enable", "an outside socket was opened by a data cell that did not come from the "
@@ -479,7 +486,8 @@ def _strategy():
         "size": st.sampled_from([2, 8, 12, 20, 23, 24, 64, 300, 1200]),
         "dest": st.sampled_from(DESTS + DESTS[:2]),
         "direction": st.sampled_from(["out", "out", "in"]),
-        "first_src": st.sampled_from(["prev", "prev", "prev", "same_ip_other_port", "other_ip", "other_ip_after_replay"]),
+        "first_src": st.sampled_from(["prev", "prev", "prev", "same_ip_other_port", "other_ip", "other_ip_after_replay",
+                                      "other_ip_after_ping"]),
         "in_via": st.sampled_from(["v4", "v4", "v6", "v6mapped"]),
         "followups": st.lists(st.tuples(st.sampled_from(KINDS), st.sampled_from([2, 12, 23, 64, 300]),
                                         st.integers(0, len(DESTS) - 1), st.integers(0, 1)).map(list), max_size=3),
